@@ -173,6 +173,22 @@ def judge(label, t, tier, acc, rng):
     else:
         vals, _ = value_universe(t, 120)
     found = compare(t, s, vals, acc, rng, label)
+    # the parts still mean what they meant: every operand object the combination was built from
+    # is judged against the model of its own term after the combination exists
+    for obj in list(b.keep):
+        ot = b.ids.get(id(obj))
+        if obj is s or ot is None or ot[0] not in ("dict", "any", "list"):
+            continue
+        ovals = dict_values(tier)[:40] if ot[0] == "dict" else value_universe(ot, 40)[0]
+        for v in ovals:
+            acc.count("validations")
+            try:
+                exp = M.accepts(ot, v)
+            except M.ModelGap:
+                continue
+            if verdict(obj, v) != exp:
+                found.append((f"C13|{label}|operand-changed-by-the-combination", f"{show(ot)} on {src(v)}"))
+                break
     if label in ("add", "mkreq"):
         ex = exposes(t, s, b)
         if ex:
